@@ -17,7 +17,7 @@
 (*                                                                         *)
 (* The trace is fully logged, so the search is linear: one state per line. *)
 (***************************************************************************)
-EXTENDS QueueMap, WalPlan, TLC, TLCExt, Json, IOUtils
+EXTENDS QueueMap, WalPlan, Codec, TLC, TLCExt, Json, IOUtils
 
 Rec == ndJsonDeserialize(IOEnv.TRACE)
 NLines == Len(Rec)
@@ -693,6 +693,26 @@ TrExpect ==
      IN ReportDrift(D)
   /\ UNCHANGED <<ctx, saved, refObs, nviol>>
 
+(* The entry codec: the real deserializer (verif::decode_entry = MultiPlexedRecord::deserialize) against *)
+(* Codec!Decode on byte strings - encodings of entries (enc = 1: they must decode to what was encoded,  *)
+(* C07), mutations of encodings and hostile strings (the deserializer must not panic, C10; a different   *)
+(* answer than Decode's is a conformance drift of Codec.tla, not a verdict).                            *)
+TrCodec ==
+  /\ R.ev = "codec"
+  /\ LET spec == Decode(R.b)
+         impl == IF R.out # "entry" THEN None
+                 ELSE [k |-> R.k, q |-> R.q, pos |-> R.pos,
+                       recs |-> [i \in 1..Len(R.recs) |-> [pos |-> R.recs[i].pos, payload |-> R.recs[i].payload]]]
+         V ==  (IF R.out = "panic" THEN {<<"C10", "the entry deserializer panicked on a byte string">>} ELSE {})
+          \cup (IF R.enc = 1 /\ R.out # "panic" /\ (spec = None \/ impl # spec)
+                THEN {<<"C07", "an encoded entry does not decode to what was encoded">>} ELSE {})
+         D == IF R.enc = 0 /\ R.out # "panic" /\ impl # spec
+              THEN {"codec: the deserializer and Codec!Decode disagree on a byte string of " \o ToString(Len(R.b)) \o " bytes"} ELSE {}
+     IN /\ Report(V)
+        /\ ReportDrift(D)
+        /\ nviol' = nviol + Cardinality(V)
+  /\ UNCHANGED <<ctx, saved, refObs>>
+
 TrPop ==
   /\ R.ev = "pop"
   /\ ctx' = saved
@@ -702,7 +722,7 @@ TrPop ==
 TraceNext ==
   /\ l <= NLines
   /\ l' = l + 1
-  /\ \/ TrRun \/ TrInit \/ TrBegin \/ TrEnd \/ TrCrash \/ TrPop \/ TrDamage \/ TrFault \/ TrName \/ TrDirHist \/ TrPair \/ TrPairCrash \/ TrFrames \/ TrExpect
+  /\ \/ TrRun \/ TrInit \/ TrBegin \/ TrEnd \/ TrCrash \/ TrPop \/ TrDamage \/ TrFault \/ TrName \/ TrDirHist \/ TrPair \/ TrPairCrash \/ TrFrames \/ TrExpect \/ TrCodec
 
 TraceInit ==
   /\ l = 1
